@@ -7,6 +7,7 @@ import NLV.Driver.DoneCallback
 import NLV.Driver.Lifecycle
 import NLV.Driver.RunProc
 import NLV.Driver.Trace
+import NLV.Driver.Relay
 
 def main (args : List String) : IO UInt32 := do
   match args with
@@ -19,4 +20,5 @@ def main (args : List String) : IO UInt32 := do
   | ["life"] => NLV.Driver.Life.main; return 0
   | ["runproc"] => NLV.Driver.RunProc.main; return 0
   | ["trace"] => NLV.Driver.Trace.main; return 0
+  | ["relay"] => NLV.Driver.Relay.main; return 0
   | _ => IO.eprintln "usage: nlvmodel <model>"; return 2
